@@ -51,6 +51,12 @@ CHECKS = {
     text='Machine-checked proof about the model of Units/Variable/Reset/Component/Model::clone in which every object carries the epoch of the call that created it: the content of the clone (all attributes, resets re-targeted by index, whether an order is set, encapsulation ids, unit re-linking, equivalences by position) equals that of the original for every entity, and every object reachable from the clone belongs to the clone epoch — except import sources, which the current code shares with the original (kernel-checked witness; known finding; proved fresh for the counterfactual that clones them).  Tie: real clone() on generated entities of all five kinds (valid or not): wire dumps of clone and original compared with each other and with the model, equals in both directions, no parent, equivalences by position with mapping/connection ids, and pointer disjointness of the two reachable object graphs.',
     note='Trusted: Lean kernel; hx_clone.cpp/hx_entity.h (builder, dumper, reachability) and driver; generators.  Independence is established through disjointness of the reachable entity objects (all mutable state lives there); the "mutate one, re-dump the other" experiment is not run separately.  Mapping/connection ids of equivalences are checked on the implementation only.  One known finding (shared ImportSource).',
     design='4 C11'),
+ 'C09': dict(
+    engine='heap',
+    technique='Lean 4 proof: heap model of the container mutators; ownership invariant (listed => parent, no double listing, typed lists, symmetric equivalences) preserved by every valid operation and by induction over histories, for any notion of structural look-alike; acyclicity of the hierarchy under addComponent/removals (ancestor relation, soundness of the hasAncestor test); frame lemmas; full graph dumps compared after every operation of generated histories',
+    text='Machine-checked proof about a heap model (parent pointers, per-kind child lists, equivalence lists) of addComponent/addVariable/addReset/addUnits, removal by index, pointer and name, removeAll, add/remove/removeAll equivalences: every operation that is not "add to the container that already holds it" preserves "listed implies parent", absence of double listing (hence one container), typing of lists and symmetry of equivalences, and so does every history from the empty graph (induction); the hierarchy stays acyclic (the executable hasAncestor test is sound w.r.t. the ancestor relation); removing an object that is a child affects exactly that object, a non-child is refused or matched to a look-alike whose own links are cleared.  The theorems hold for any look-alike relation; the engine instantiates it with the C10 equality model evaluated on the heap.  Tie: 12 real objects (identical siblings included), the whole operation alphabet incl. null pointers, out-of-range indices and unknown names on the empty and on a populated graph, random pairs and long random histories; the full object graph is dumped and compared after every operation and an independent graph oracle is evaluated on the implementation.',
+    note='PARTIAL.  Trusted: Lean kernel; hx_heap.cpp and driver; generator/oracle.  replaceComponent/replaceUnits are modelled and compared but outside the step theorem; owner release (weak parent pointers expiring), Variable::setUnits, and the entity-taking entry points of annotator/importer/analyser are not in the engine; memory safety is observed (harness crash = violation with the history as replay), not proved.',
+    design='4 C09'),
 }
 
 def manifest():
@@ -79,7 +85,8 @@ def manifest():
                    enable='each check configures /repo into a scratch dir with -DCMAKE_CXX_FLAGS=-DLIBCELLML_VERIF (vlib/common.py: build_lib) and links harness/hx_*.cpp against the static library',
                    baseline_off_cmd='python3 tools/baseline_off.py',
                    source_commits=hooks['source_commits'], add_only=True),
-        engines=[dict(name='clone', path='harness/hx_clone.cpp + lean/Cellml/Engine/Clone.lean', serves_properties=['C11'], kind_free_text='differential: real clone() dumps / reachability vs epoch-labelled Lean model'),
+        engines=[dict(name='heap', path='harness/hx_heap.cpp + lean/Cellml/Engine/Heap.lean', serves_properties=['C09'], kind_free_text='differential: API histories on 12 real objects vs heap model, full graph dump after every operation'),
+                 dict(name='clone', path='harness/hx_clone.cpp + lean/Cellml/Engine/Clone.lean', serves_properties=['C11'], kind_free_text='differential: real clone() dumps / reachability vs epoch-labelled Lean model'),
                  dict(name='repair', path='harness/hx_repair.cpp + lean/Cellml/Engine/Repair.lean', serves_properties=['C19'], kind_free_text='differential: real fixVariableInterfaces/linkUnits/clean (+Validator) vs Lean model'),
                  dict(name='annot', path='harness/hx_annot.cpp + lean/Cellml/Engine/Annot.lean', serves_properties=['C13'], kind_free_text='differential: real Annotator histories vs slot-level Lean model, exact identifiers after every operation'),
                  dict(name='equals', path='harness/hx_equals.cpp + hx_entity.h + lean/Cellml/Engine/Equals.lean', serves_properties=['C10'], kind_free_text='differential: real equals() vs value-level Lean model on generated pairs'),
